@@ -27,22 +27,26 @@ import (
 // final for that step (what happened AND what did not happen, without timeouts).
 
 type c02Act struct {
-	K string // tick | pstop | complete | consume | stop | fail
-	A int    // complete: which in-transport request (index modulo); stop: number of concurrent callers
+	K string // tick | pstop | complete | completeerr | consume | stop | fail | sleep
+	A int    // complete(err): which in-transport request (index modulo); stop: number of concurrent callers; sleep: virtual milliseconds
 }
 
 type c02Case struct {
 	Workers    uint64
 	MaxWorkers uint64
+	DNSTTLms   int // > 0: the attacker also gets DNSCaching(ttl), whose refresh goroutine must end with the attack
 	Script     []c02Act
 }
 
 func (c c02Case) String() string {
 	var b strings.Builder
 	fmt.Fprintf(&b, "workers=%d max=%d:", c.Workers, c.MaxWorkers)
+	if c.DNSTTLms > 0 {
+		fmt.Fprintf(&b, " dns-ttl=%dms", c.DNSTTLms)
+	}
 	for _, a := range c.Script {
 		fmt.Fprintf(&b, " %s", a.K)
-		if a.K == "complete" || a.K == "stop" {
+		if a.K == "complete" || a.K == "completeerr" || a.K == "stop" || a.K == "sleep" {
 			fmt.Fprintf(&b, "(%d)", a.A)
 		}
 	}
@@ -63,7 +67,7 @@ type c02World struct {
 	failNext      bool
 	failedCalls   []int // indices (0-based) of targeter calls that failed
 	entered       []uint64
-	gates         map[uint64]chan struct{}
+	gates         map[uint64]chan error
 }
 
 func (w *c02World) Pace(elapsed time.Duration, hits uint64) (time.Duration, bool) {
@@ -88,7 +92,7 @@ func (w *c02World) target(t *vegeta.Target) error {
 		w.failedCalls = append(w.failedCalls, idx)
 		return errC02Target
 	}
-	*t = vegeta.Target{Method: "GET", URL: "http://c02.test/"}
+	*t = vegeta.Target{Method: "GET", URL: "c02://c02.test/"}
 	return nil
 }
 
@@ -97,12 +101,14 @@ func (w *c02World) RoundTrip(req *http.Request) (*http.Response, error) {
 	if err != nil {
 		return nil, fmt.Errorf("no X-Vegeta-Seq")
 	}
-	gate := make(chan struct{})
+	gate := make(chan error, 1)
 	w.mu.Lock()
 	w.entered = append(w.entered, seq)
 	w.gates[seq] = gate
 	w.mu.Unlock()
-	<-gate
+	if err := <-gate; err != nil {
+		return nil, err
+	}
 	return &http.Response{Status: "200 OK", StatusCode: 200, Proto: "HTTP/1.1", ProtoMajor: 1, ProtoMinor: 1,
 		Header: http.Header{"X-Echo-Seq": []string{strconv.FormatUint(seq, 10)}}, Body: io.NopCloser(strings.NewReader("ok")), Request: req}, nil
 }
@@ -118,8 +124,15 @@ type c02Result struct {
 
 // execC02 must be called inside a synctest bubble.
 func execC02(c c02Case) (res c02Result, err error) {
-	w := &c02World{pacerCh: make(chan c02PacerAns), gates: map[uint64]chan struct{}{}}
-	atk := vegeta.NewAttacker(vegeta.Client(&http.Client{Transport: w}), vegeta.Workers(c.Workers), vegeta.MaxWorkers(c.MaxWorkers))
+	w := &c02World{pacerCh: make(chan c02PacerAns), gates: map[uint64]chan error{}}
+	// a real *http.Transport (so that transport-level options apply) that hands the "c02" scheme to the harness
+	htr := &http.Transport{}
+	htr.RegisterProtocol("c02", w)
+	opts := []func(*vegeta.Attacker){vegeta.Client(&http.Client{Transport: htr}), vegeta.Workers(c.Workers), vegeta.MaxWorkers(c.MaxWorkers)}
+	if c.DNSTTLms > 0 {
+		opts = append(opts, vegeta.DNSCaching(time.Duration(c.DNSTTLms)*time.Millisecond))
+	}
+	atk := vegeta.NewAttacker(opts...)
 	results := atk.Attack(w.target, w, 0, "c02")
 	synctest.Wait()
 
@@ -134,6 +147,8 @@ func execC02(c c02Case) (res c02Result, err error) {
 		pacerStopped, loopEnded  bool
 		closed                   bool
 		failedSeq                = map[uint64]bool{}
+		erroredSeq               = map[uint64]bool{} // the transport failed for these
+		endedStop                bool                // the attack has ended and (in today's code) called Stop itself
 		received                 = map[uint64]bool{}
 		stopTrue                 int
 		firstStopBeforeInternal  = -1 // -1 no Stop call yet, 1 first call preceded any internal stop, 0 otherwise
@@ -251,7 +266,11 @@ func execC02(c c02Case) (res c02Result, err error) {
 				return fail("C02: hit %d whose targeter failed delivered a result without error", r.Seq)
 			}
 		} else {
-			if echo := r.Headers.Get("X-Echo-Seq"); echo != strconv.FormatUint(r.Seq, 10) {
+			if erroredSeq[r.Seq] {
+				if r.Error == "" || (r.Code >= 200 && r.Code < 400) {
+					return fail("C06: hit %d whose transport failed delivered code %d error %q", r.Seq, r.Code, r.Error)
+				}
+			} else if echo := r.Headers.Get("X-Echo-Seq"); echo != strconv.FormatUint(r.Seq, 10) {
 				return fail("C02: result seq %d belongs to the exchange whose X-Vegeta-Seq was %q", r.Seq, echo)
 			}
 			for _, s := range inTransport {
@@ -282,9 +301,12 @@ func execC02(c c02Case) (res c02Result, err error) {
 			wg.Wait()
 		}
 		if firstStopBeforeInternal == -1 {
-			if internalStop {
+			switch {
+			case internalStop:
 				firstStopBeforeInternal = 0
-			} else {
+			case endedStop:
+				firstStopBeforeInternal = 2 // the attack ended by itself: whether it counts as a Stop call is not the property's business
+			default:
 				firstStopBeforeInternal = 1
 			}
 		}
@@ -318,8 +340,9 @@ func execC02(c c02Case) (res c02Result, err error) {
 			e = append(e, "tick", "pstop")
 		}
 		if len(inTransport) > 0 {
-			e = append(e, "complete")
+			e = append(e, "complete", "completeerr")
 		}
+		e = append(e, "sleep")
 		if finished > 0 || (loopEnded && started == consumed) {
 			e = append(e, "consume")
 		}
@@ -407,7 +430,21 @@ func execC02(c c02Case) (res c02Result, err error) {
 			if pacerWaiting() {
 				return fail("the pacer was consulted again after it said stop")
 			}
-		case "complete":
+		case "sleep":
+			d := time.Duration(a.A) * time.Millisecond
+			if d <= 0 {
+				d = time.Second
+			}
+			time.Sleep(d) // virtual: every timer of the attack that is due fires
+			synctest.Wait()
+			n, err := absorbStarts()
+			if err != nil {
+				return fail("%v", err)
+			}
+			if n != 0 {
+				return fail("a hit started while nothing happened but time passing")
+			}
+		case "complete", "completeerr":
 			i := a.A % len(inTransport)
 			if i < 0 {
 				i += len(inTransport)
@@ -417,7 +454,12 @@ func execC02(c c02Case) (res c02Result, err error) {
 			w.mu.Lock()
 			gate := w.gates[seq]
 			w.mu.Unlock()
-			close(gate)
+			if a.K == "completeerr" {
+				erroredSeq[seq] = true
+				gate <- errors.New([]string{"EOF", "read tcp 10.0.0.1:1->10.0.0.2:80: read: connection reset by peer", "http: server closed idle connection", "harness: transport failure"}[int(seq)%4])
+			} else {
+				gate <- nil
+			}
 			finished++
 			synctest.Wait()
 			n, err := absorbStarts()
@@ -425,7 +467,7 @@ func execC02(c c02Case) (res c02Result, err error) {
 				return fail("%v", err)
 			}
 			if n != 0 {
-				return fail("C03: a hit started when a response completed although its result was not consumed yet")
+				return fail("C03: a hit started when a response completed (or failed) although its result was not consumed yet")
 			}
 		case "consume":
 			if finished > 0 {
@@ -488,9 +530,9 @@ func execC02(c c02Case) (res c02Result, err error) {
 		}
 		_ = pacerStopped
 		if loopEnded && started == consumed {
-			// all workers have exited: the attack closed its channel and called Stop itself
+			// all workers have exited: the attack closed its channel (and, today, called Stop itself)
 			synctest.Wait()
-			internalStop, stopRequested = true, true
+			endedStop = true
 		}
 		if loopEnded && pacerWaiting() {
 			return fail("the pacer is consulted although the attack loop must have ended")
@@ -543,9 +585,12 @@ func execC02(c c02Case) (res c02Result, err error) {
 	if r, ok, got := recv(); !got || ok {
 		return res, fail("C02: reading the closed results channel again yields %v %v %v", r, ok, got)
 	}
-	synctest.Wait() // the attack's own final Stop has run by now
-	if atk.Stop() {
-		return res, fail("C02: Stop after the attack ended reports that it initiated the stop")
+	synctest.Wait()
+	if atk.Stop() { // may or may not be the first Stop call, but never a second "first"
+		stopTrue++
+	}
+	if stopTrue > 1 {
+		return res, fail("C02: %d Stop calls reported that they initiated the stop", stopTrue)
 	}
 	_, tc, _ := snap()
 	if tc != started {
@@ -591,7 +636,7 @@ func runC02(c c02Case) error {
 	return err
 }
 
-var c02Kinds = []string{"tick", "tick", "tick", "complete", "consume", "consume", "stop", "pstop", "fail"}
+var c02Kinds = []string{"tick", "tick", "tick", "tick", "complete", "complete", "completeerr", "consume", "consume", "consume", "stop", "pstop", "fail", "sleep"}
 
 func c02Classify(c c02Case, res c02Result) (bool, []string) {
 	var labels []string
@@ -621,6 +666,9 @@ func TestC02Random(t *testing.T) {
 			c.MaxWorkers = uint64(rapid.IntRange(1, 64).Draw(t, "max"))
 			c.Workers = uint64(rapid.IntRange(0, 70).Draw(t, "workers"))
 		}
+		if rapid.IntRange(0, 3).Draw(t, "dns") == 0 {
+			c.DNSTTLms = rapid.SampledFrom([]int{5, 50, 1000}).Draw(t, "dnsttl")
+		}
 		n := rapid.IntRange(1, 200).Draw(t, "len")
 		if rapid.Bool().Draw(t, "short") {
 			n = rapid.IntRange(1, 25).Draw(t, "len2")
@@ -633,8 +681,10 @@ func TestC02Random(t *testing.T) {
 			}
 			a := c02Act{K: k}
 			switch k {
-			case "complete":
+			case "complete", "completeerr":
 				a.A = rapid.IntRange(0, 63).Draw(t, fmt.Sprintf("a%d", i))
+			case "sleep":
+				a.A = rapid.SampledFrom([]int{1, 50, 1500, 10000, 120000}).Draw(t, fmt.Sprintf("a%d", i))
 			case "stop":
 				a.A = rapid.SampledFrom([]int{1, 1, 2, 3, 8}).Draw(t, fmt.Sprintf("a%d", i))
 			}
@@ -665,7 +715,9 @@ func TestC02Exhaustive(t *testing.T) {
 	}
 	alphabet := map[string][]c02Act{
 		"tick": {{K: "tick"}}, "pstop": {{K: "pstop"}}, "consume": {{K: "consume"}}, "fail": {{K: "fail"}},
-		"complete": {{K: "complete", A: 0}, {K: "complete", A: -1}}, // oldest / newest
+		"complete":    {{K: "complete", A: 0}, {K: "complete", A: -1}}, // oldest / newest
+		"completeerr": {{K: "completeerr", A: 0}},
+		"sleep":       {{K: "sleep", A: 1500}},
 		"stop":     {{K: "stop", A: 1}, {K: "stop", A: 2}},
 	}
 	shard, shards := vh.Shard(), vh.Shards()
@@ -692,7 +744,10 @@ func TestC02Exhaustive(t *testing.T) {
 		if depth == maxLen {
 			return
 		}
-		for _, k := range []string{"tick", "complete", "consume", "stop", "pstop", "fail"} {
+		for _, k := range []string{"tick", "complete", "completeerr", "consume", "stop", "pstop", "fail", "sleep"} {
+			if k == "sleep" && len(c.Script) > 0 && c.Script[len(c.Script)-1].K == "sleep" {
+				continue // two sleeps in a row are one longer sleep
+			}
 			en := false
 			for _, e := range res.enabled {
 				en = en || e == k
@@ -704,7 +759,7 @@ func TestC02Exhaustive(t *testing.T) {
 				if a.K == "complete" && a.A == -1 && res.started < 2 {
 					continue // oldest == newest
 				}
-				next := c02Case{Workers: c.Workers, MaxWorkers: c.MaxWorkers, Script: append(append([]c02Act(nil), c.Script...), a)}
+				next := c02Case{Workers: c.Workers, MaxWorkers: c.MaxWorkers, DNSTTLms: c.DNSTTLms, Script: append(append([]c02Act(nil), c.Script...), a)}
 				if depth == 1 { // shard on (config, first two actions)
 					unit++
 					if unit%shards != shard {
@@ -723,7 +778,7 @@ func TestC02Exhaustive(t *testing.T) {
 			}
 			saved := maxLen
 			maxLen = ml
-			dfs(c02Case{Workers: wk, MaxWorkers: mx}, 0)
+			dfs(c02Case{Workers: wk, MaxWorkers: mx, DNSTTLms: int(wk%2) * 50}, 0) // odd initial worker counts also get DNSCaching
 			maxLen = saved
 		}
 	}
